@@ -27,6 +27,20 @@
 (*   verchain  LSB "Symbol Versioning": sh_info Verdef/Verneed entries      *)
 (*             linked by vd_next/vn_next, each with vd_cnt/vn_cnt           *)
 (*             auxiliaries from vd_aux/vn_aux linked by vda_next/vna_next   *)
+(*   links     gABI ch.4 figure 4-14 "sh_link and sh_info interpretation":   *)
+(*             enumerating the sections makes, for a section whose kind      *)
+(*             gives sh_link a meaning, the object of the section that field *)
+(*             designates (a symbol table's string table, a hash / version / *)
+(*             relocation / group / index section's symbol table), which in  *)
+(*             turn has a link of its own.  Sections are the units here: a   *)
+(*             table of n-1 one-unit headers, kinds null, str, sym, use,     *)
+(*             str, sym, use, ...; a `sym` links to the `str` before it, a   *)
+(*             `use` to the `sym` before it.  Link faults: 0, the section's  *)
+(*             own index (`self`), the next / previous section of the same   *)
+(*             kind (`peern` / `peerp`, cyclically), the section whose link  *)
+(*             designates this one (`back`), the number of sections          *)
+(*             (`count`), far beyond (hi / ones).  One fault closes a 1- or  *)
+(*             2-cycle, two close a 2-cycle between peers.                   *)
 (*                                                                         *)
 (* The abstract file is a VALID file of the walker's kind plus at most      *)
 (* MaxFaults field corruptions (2 in files of more than SmallN units; the   *)
@@ -49,7 +63,10 @@
 (* Checked by TLC (cfg/Faults_walk_*.cfg):                                  *)
 (*   Guarded = TRUE  (a reader that (g1) rejects an entry size smaller than *)
 (*     the record it reads, wherever the table is, and (g2) ends a chain at *)
-(*     a zero `next` displacement):  PROPERTY Halts (<>halted under weak    *)
+(*     a zero `next` displacement; (g3) follows a link only to a section of *)
+(*     the kind figure 4-14 names for it - that relation is well-founded    *)
+(*     (use > sym > str), so a link walk visits no section twice: INVARIANT *)
+(*     LinkOnce):  PROPERTY Halts (<>halted under weak                      *)
 (*     fairness) and INVARIANT Linear (steps <= K*(n+1)) hold for every     *)
 (*     walker, every n, every fault set.                                   *)
 (*   Guarded = FALSE (the loops exactly as the format text implies: follow  *)
@@ -80,7 +97,10 @@ VARIABLES w,            \* walker name
           st            \* machine state
 vars == <<w, n, flt, gb, st>>
 
-AllWalkers == {"shdr", "shdr0", "phdr", "phdr0", "symcount", "dyn", "notes", "sysvhash", "gnuhash", "verchain"}
+AllWalkers == {"shdr", "shdr0", "phdr", "phdr0", "symcount", "dyn", "notes", "sysvhash", "gnuhash", "verchain", "links"}
+\* the link walk is a statement about the link graph, not about sizes: a few table sizes, among them the smallest ones
+\* with two sections of every kind (n = 7: sections 0..5) and three (n = 10)
+LinkNs == {2, 3, 4, 7, 10}
 Ns8 == 1..8
 Ns12 == {1, 2, 3, 4, 5, 6, 7, 8, 9, 10, 12}
 Ns16 == 1..16
@@ -89,6 +109,7 @@ NsAll == 1..64
 
 Omega == 1000000
 Classes == {"zero", "one", "entm1", "fsize", "fsize1", "hi", "ones"}
+LinkCls == {"zero", "self", "peern", "peerp", "back", "count", "hi", "ones"}
 MinI(a, b) == IF a < b THEN a ELSE b
 MaxI(a, b) == IF a > b THEN a ELSE b
 
@@ -101,7 +122,7 @@ NoteLen == 5      \* note header + one unit of name + one unit of descriptor
 
 RecSize(wk) == CASE wk \in {"shdr", "shdr0", "phdr", "phdr0", "symcount", "verchain", "notes"} -> Hdr
                  [] wk = "dyn" -> Ent
-                 [] OTHER -> 1
+                 [] OTHER -> 1                                      \* (links: one section header)
 \* number of records of the valid file (unit 0 is the file header, never part of a table)
 NRec(wk, nn) == CASE wk \in {"shdr", "phdr", "symcount"} -> (nn - 1) \div Hdr
                   [] wk \in {"phdr0", "shdr0"} -> 0
@@ -110,6 +131,7 @@ NRec(wk, nn) == CASE wk \in {"shdr", "phdr", "symcount"} -> (nn - 1) \div Hdr
                   [] wk = "verchain" -> (nn - 1) \div Grp
                   [] wk = "sysvhash" -> MaxI(0, nn - 4)            \* chain words
                   [] wk = "gnuhash" -> MaxI(0, nn - 7)             \* chain words
+                  [] wk = "links" -> nn - 1                        \* sections 0 .. nn-2 (record r = section r-1)
 \* where the valid table / extent starts: it ends at the end of the file
 Start(wk, nn) == CASE wk \in {"shdr", "phdr", "symcount"} -> nn - Hdr * NRec(wk, nn)
                    [] wk \in {"phdr0", "shdr0"} -> 0
@@ -118,8 +140,16 @@ Start(wk, nn) == CASE wk \in {"shdr", "phdr", "symcount"} -> nn - Hdr * NRec(wk,
                    [] wk = "verchain" -> nn - Grp * NRec(wk, nn)
                    [] OTHER -> 1
 
+\* links: the kind of section i and what its link designates in the valid file
+LKind(i) == IF i = 0 THEN "null" ELSE CASE (i % 3) = 1 -> "str" [] (i % 3) = 2 -> "sym" [] OTHER -> "use"
+LExpect(kind) == CASE kind = "sym" -> "str" [] kind = "use" -> "sym" [] OTHER -> "none"     \* figure 4-14, abstracted
+LinkField(kind) == CASE kind = "sym" -> "symlink" [] kind = "use" -> "uselink" [] OTHER -> "nolink"
+LSame(nn, i) == {j \in 1..(NRec("links", nn) - 1) : j # i /\ LKind(j) = LKind(i)}
 \* the fields a fault can hit: <<field, unit>>; unit 0 = not per record; per-record fields at the first and the last record
+\* (links: the first and the last section of either linking kind)
 Focus(wk, nn) == IF NRec(wk, nn) = 0 THEN {} ELSE {1, NRec(wk, nn)}
+LinkFocus(nn, kind) == LET S == {r \in 1..NRec("links", nn) : LKind(r - 1) = kind} IN
+                       {r \in S : (\A q \in S : q >= r) \/ (\A q \in S : q <= r)}
 GlobalFields(wk) ==
   CASE wk \in {"shdr", "shdr0"} -> {"off", "entsize", "num", "sh0size"}
     [] wk \in {"phdr", "phdr0"} -> {"off", "entsize", "num", "sh0info"}
@@ -129,12 +159,14 @@ GlobalFields(wk) ==
     [] wk = "sysvhash" -> {"off", "nbucket", "nchain"}
     [] wk = "gnuhash" -> {"off", "nbuckets", "symoffset", "bloomsize", "bucket", "endword"}
     [] wk = "verchain" -> {"off", "info"}
+    [] wk = "links" -> {}
 UnitFields(wk) ==
   CASE wk = "dyn" -> {"tag"}
     [] wk = "notes" -> {"namesz", "descsz"}
     [] wk = "verchain" -> {"cnt", "aux", "next", "anext"}
     [] OTHER -> {}
-FaultSites(wk, nn) == {<<f, 0>> : f \in GlobalFields(wk)} \cup {<<f, u>> : f \in UnitFields(wk), u \in Focus(wk, nn)}
+FaultSites(wk, nn) == IF wk = "links" THEN {<<"symlink", u>> : u \in LinkFocus(nn, "sym")} \cup {<<"uselink", u>> : u \in LinkFocus(nn, "use")}
+                      ELSE {<<f, 0>> : f \in GlobalFields(wk)} \cup {<<f, u>> : f \in UnitFields(wk), u \in Focus(wk, nn)}
 
 \* the valid value of a field
 Default(wk, nn, f, u) ==
@@ -155,15 +187,28 @@ Default(wk, nn, f, u) ==
     [] f = "aux" -> Hdr
     [] f = "next" -> IF u = k THEN 0 ELSE Grp
     [] f = "anext" -> Ent                                    \* of the first auxiliary; the second one ends the chain with 0
+    [] f \in {"symlink", "uselink"} -> u - 2                 \* record u is section u-1; it links to the section before it
 
 ClassVal(wk, nn, c) ==
   CASE c = "zero" -> 0 [] c = "one" -> 1 [] c = "entm1" -> RecSize(wk) - 1
     [] c = "fsize" -> nn [] c = "fsize1" -> nn + 1 [] OTHER -> Omega
 
+\* the value of a link class in the header of section i = u - 1 (a class the file has no section for: the valid value)
+LinkVal(nn, u, c) ==
+  LET i == u - 1   k == NRec("links", nn)   same == LSame(nn, i)
+      lo(S) == CHOOSE x \in S : \A y \in S : x <= y
+      hi(S) == CHOOSE x \in S : \A y \in S : x >= y IN
+  CASE c = "zero" -> 0 [] c = "self" -> i [] c = "count" -> k
+    [] c = "peern" -> (IF same = {} THEN i - 1 ELSE IF \E j \in same : j > i THEN lo({j \in same : j > i}) ELSE lo(same))
+    [] c = "peerp" -> (IF same = {} THEN i - 1 ELSE IF \E j \in same : j < i THEN hi({j \in same : j < i}) ELSE hi(same))
+    [] c = "back" -> (IF i + 1 < k /\ LExpect(LKind(i + 1)) = LKind(i) THEN i + 1 ELSE i - 1)
+    [] OTHER -> Omega
+IsLink(f) == f \in {"symlink", "uselink"}
+ValOf(wk, nn, x) == IF IsLink(x.f) THEN LinkVal(nn, x.u, x.c) ELSE ClassVal(wk, nn, x.c)
 Fault(f, u, c) == [f |-> f, u |-> u, c |-> c]
 \* a fault must change the field
-Effective(wk, nn, x) == ClassVal(wk, nn, x.c) # Default(wk, nn, x.f, x.u)
-SingleFaults(wk, nn) == {x \in {Fault(s[1], s[2], c) : s \in FaultSites(wk, nn), c \in Classes} : Effective(wk, nn, x)}
+Effective(wk, nn, x) == ValOf(wk, nn, x) # Default(wk, nn, x.f, x.u)
+SingleFaults(wk, nn) == {x \in {Fault(s[1], s[2], c) : s \in FaultSites(wk, nn), c \in (IF wk = "links" THEN LinkCls ELSE Classes)} : Effective(wk, nn, x)}
 Site(x) == <<x.f, x.u>>
 FaultBound(nn) == IF nn <= SmallN THEN MaxFaults ELSE MinI(MaxFaults, 2)
 FaultSets(wk, nn) ==
@@ -175,7 +220,7 @@ Distinct(F) == \A x, y \in F : x # y => Site(x) # Site(y)
 
 \* the value of a field of the (corrupted) file
 Get(f, u) == IF \E x \in flt : x.f = f /\ x.u = u
-             THEN ClassVal(w, n, (CHOOSE x \in flt : x.f = f /\ x.u = u).c)
+             THEN ValOf(w, n, CHOOSE x \in flt : x.f = f /\ x.u = u)
              ELSE Default(w, n, f, u)
 \* 16-bit escapes of the gABI: e_phnum = 0xffff (class `ones` in a half-word) is PN_XNUM, not a count
 IsOnes(f) == \E x \in flt : x.f = f /\ x.u = 0 /\ x.c = "ones"
@@ -192,7 +237,7 @@ Cap == K * (n + 1) + 1
 Sat(x) == IF x > n + 1 THEN n + 1 ELSE x                  \* every position beyond the end behaves alike
 Dec(l) == IF l >= Omega THEN Omega ELSE l - 1
 Plus(a, b) == IF a >= Omega \/ b >= Omega THEN Omega ELSE a + b
-S0 == [pc |-> "start", pos |-> 0, left |-> 0, apos |-> 0, aleft |-> 0, mx |-> 0, steps |-> 0, halted |-> FALSE, out |-> ""]
+S0 == [pc |-> "start", pos |-> 0, left |-> 0, apos |-> 0, aleft |-> 0, mx |-> 0, steps |-> 0, halted |-> FALSE, out |-> "", seen |-> {}, again |-> FALSE]
 Halt(s, why) == [s EXCEPT !.halted = TRUE, !.out = why, !.pc = "halt", !.steps = MinI(@ + 1, Cap)]
 Go(s) == [s EXCEPT !.steps = MinI(@ + 1, Cap)]
 
@@ -281,7 +326,23 @@ VerStep(s) ==
          IF Guarded /\ nx = 0 THEN Halt(s, "done: chain end")                               \* (g2)
          ELSE Go([s EXCEPT !.pc = "entry", !.pos = Sat(Plus(s.pos, nx)), !.left = Dec(s.left)])
 
+\* pos: the section being enumerated; apos: the section whose object is being made for it (the cursor of the link walk);
+\* seen: the sections the walk from pos has made so far; again: a section was made twice in one walk
+LinkStep(s) ==
+  LET k == NRec(w, n) IN
+  CASE s.pc = "start" -> Go([s EXCEPT !.pc = "enum", !.pos = 0])
+    [] s.pc = "enum" -> IF s.pos >= k THEN Halt(s, "done")
+                        ELSE Go([s EXCEPT !.pc = "make", !.apos = s.pos, !.seen = {s.pos}])
+    [] s.pc = "make" ->
+         LET i == s.apos   kind == LKind(i) IN
+         IF LExpect(kind) = "none" THEN Go([s EXCEPT !.pc = "enum", !.pos = s.pos + 1, !.seen = {}])      \* no link to follow: the object is complete
+         ELSE LET t == Get(LinkField(kind), i + 1) IN
+              IF t >= k THEN Halt(s, "raise: eof")                                           \* no such header: the table ends the file
+              ELSE IF Guarded /\ LKind(t) # LExpect(kind) THEN Halt(s, "raise: link kind")    \* (g3)
+              ELSE Go([s EXCEPT !.apos = t, !.seen = @ \cup {t}, !.again = @ \/ t \in s.seen])
+
 Step(s) == CASE w \in {"shdr", "shdr0", "phdr", "phdr0"} -> TableStep(s)
+             [] w = "links" -> LinkStep(s)
              [] w = "symcount" -> SymCountStep(s)
              [] w = "dyn" -> DynStep(s)
              [] w = "notes" -> NotesStep(s)
@@ -289,7 +350,7 @@ Step(s) == CASE w \in {"shdr", "shdr0", "phdr", "phdr0"} -> TableStep(s)
              [] w = "gnuhash" -> GnuStep(s)
              [] w = "verchain" -> VerStep(s)
 
-Init == /\ w \in Walkers /\ n \in Ns
+Init == /\ w \in Walkers /\ n \in Ns /\ (w = "links" => n \in LinkNs)
         /\ flt \in {F \in FaultSets(w, n) : Distinct(F)}
         /\ gb \in (IF w \in {"verchain", "shdr", "shdr0"} THEN {"zero", "stall"} ELSE {"zero"})
         /\ st = S0
@@ -304,6 +365,8 @@ Halts == <>(st.halted)
 Linear == st.steps <= K * (n + 1)
 \* a walker that has not halted can always take a step (termination is never by getting stuck)
 NoStall == ~st.halted => ENABLED Walk
+\* a link walk of the guarded reader makes every section at most once (and at most three: use, sym, str)
+LinkOnce == (w = "links" /\ Guarded) => (~st.again /\ Cardinality(st.seen) <= 3)
 
 (* ------------------------------- witnesses ----------------------------- *)
 \* how a walker field is called in a real file: alternatives <<record role, field name>>; the fault plan
@@ -322,18 +385,27 @@ Maps(f) ==
     [] w = "sysvhash" -> (CASE f = "off" -> {<<"shdr:hash", "sh_offset">>} [] f = "nbucket" -> {<<"hash", "nbucket">>} [] f = "nchain" -> {<<"hash", "nchain">>})
     [] w = "gnuhash" -> (CASE f = "off" -> {<<"shdr:gnu_hash", "sh_offset">>} [] f = "nbuckets" -> {<<"gnuhash", "nbuckets">>}
                            [] f = "symoffset" -> {<<"gnuhash", "symoffset">>} [] f = "bloomsize" -> {<<"gnuhash", "bloom_size">>}
-                           [] f = "bucket" -> {<<"gnubucket", "bucket">>} [] f = "endword" -> {})
+                           [] f = "bucket" -> {<<"gnubucket", "bucket">>} [] f = "endword" -> {<<"gnuchain", "chain">>})
     [] w = "verchain" -> (CASE f = "off" -> {<<"shdr:verdef", "sh_offset">>, <<"shdr:verneed", "sh_offset">>}
                             [] f = "info" -> {<<"shdr:verdef", "sh_info">>, <<"shdr:verneed", "sh_info">>}
                             [] f = "cnt" -> {<<"verdef", "vd_cnt">>, <<"verneed", "vn_cnt">>}
                             [] f = "aux" -> {<<"verdef", "vd_aux">>, <<"verneed", "vn_aux">>}
                             [] f = "next" -> {<<"verdef", "vd_next">>, <<"verneed", "vn_next">>}
                             [] f = "anext" -> {<<"verdaux", "vda_next">>, <<"vernaux", "vna_next">>})
+    [] w = "links" -> (CASE f = "symlink" -> {<<"shdr:symtab", "sh_link">>, <<"shdr:dynsym", "sh_link">>, <<"shdr:ldynsym", "sh_link">>}
+                         [] f = "uselink" -> {<<"shdr:dynamic", "sh_link">>, <<"shdr:hash", "sh_link">>, <<"shdr:gnu_hash", "sh_link">>,
+                                              <<"shdr:versym", "sh_link">>, <<"shdr:verdef", "sh_link">>, <<"shdr:verneed", "sh_link">>,
+                                              <<"shdr:rel", "sh_link">>, <<"shdr:rela", "sh_link">>, <<"shdr:symtab_shndx", "sh_link">>,
+                                              <<"shdr:group", "sh_link">>, <<"shdr:syminfo", "sh_link">>})
 \* which record: "first" / "last" of its kind (per-record fields), "" otherwise
-Which(x) == IF x.u = 0 THEN "" ELSE IF x.u = 1 THEN "first" ELSE "last"
+\* (links: the first / last section of its kind)
+Which(x) == IF x.u = 0 THEN ""
+            ELSE IF IsLink(x.f) THEN (IF \A q \in LinkFocus(n, LKind(x.u - 1)) : q >= x.u THEN "first" ELSE "last")
+            ELSE IF x.u = 1 THEN "first" ELSE "last"
 \* concrete classes an abstract class stands for (tried in this order; a class that does not fit the field falls back
 \* to the widest one that does - Faults.tla ClassDigits)
-ConcreteClasses(c) == CASE c = "hi" -> <<"b31", "b63">> [] c = "ones" -> <<"m32", "m64">> [] OTHER -> <<c>>
+ConcreteClasses(c) == CASE c = "hi" -> <<"b31", "b63">> [] c = "ones" -> <<"m32", "m64">> [] c = "back" -> <<"back", "backl">>
+                           [] c = "count" -> <<"shnum">> [] OTHER -> <<c>>
 \* the kind of valid file the walker starts from, where it matters (a trait of the seed, see Faults!SeedLines)
 Needs == CASE w = "phdr0" -> "no phtable" [] w = "phdr" -> "phtable" [] w = "shdr" -> "shtable" [] w = "shdr0" -> "no shtable" [] OTHER -> ""
 Witness == [w |-> w, n |-> n, k |-> NRec(w, n), pc |-> st.pc, pos |-> st.pos, needs |-> Needs, gb |-> gb,
